@@ -248,7 +248,9 @@ fn run_controlled(st: &Store, u: &[MEvent], owned: &[pocket_types::OwnedEvent], 
             resumes.push(tx);
             let to_ctl = to_ctl.clone();
             let ops = ops.clone();
+            let slot = current_slot();
             let _ = scope.spawn(move || {
+                adopt_slot(slot);
                 CTX.with(|cx| *cx.borrow_mut() = Some(WorkerCtx { id: w, to_ctl: to_ctl.clone(), resume: rx }));
                 for (i, op) in ops.iter().enumerate() {
                     pause_here("op.begin");
@@ -722,7 +724,11 @@ impl Prop for C14 {
                     .map(|ops| {
                         let st = sw.st();
                         let (u, owned, panel) = (&u, &sw.owned, &panel);
-                        scope.spawn(move || ops.iter().map(|op| exec(st, u, owned, panel, op)).collect::<Vec<String>>())
+                        let slot = current_slot();
+                        scope.spawn(move || {
+                            adopt_slot(slot);
+                            ops.iter().map(|op| exec(st, u, owned, panel, op)).collect::<Vec<String>>()
+                        })
                     })
                     .collect();
                 hs.into_iter().map(|h| h.join().unwrap_or_default()).collect()
